@@ -101,11 +101,14 @@ mod verif_driver_redeemers {
         Ok(out)
     }
 
+    #[derive(Default)]
     struct Case {
         inputs: Vec<(Vec<(u8, u32)>, Option<i128>)>,   // UTxOs of the block, redeemer number
         mints: Vec<(u8, Option<i128>)>,                // policy, redeemer
         burns: Vec<(u8, Option<i128>)>,
         withdrawals: Vec<(u8, Option<i128>)>,          // reward account tag, redeemer
+        burn_amount: Option<i128>,                     // amount burned per burn block (default 2; mints are 3)
+        native_witness: bool,                          // the template also carries a native-script witness
     }
 
     fn red(r: &Option<i128>) -> tir::Expression { match r { Some(n) => num(*n), None => tir::Expression::None } }
@@ -116,8 +119,11 @@ mod verif_driver_redeemers {
             tx.inputs.push(input_block(&format!("in{i}"), us, red(r)));
         }
         for (p, r) in &c.mints { tx.mints.push(tir::Mint { amount: tir::Expression::Assets(vec![token(*p, 3)]), redeemer: red(r) }); }
-        for (p, r) in &c.burns { tx.burns.push(tir::Mint { amount: tir::Expression::Assets(vec![token(*p, 2)]), redeemer: red(r) }); }
+        for (p, r) in &c.burns { tx.burns.push(tir::Mint { amount: tir::Expression::Assets(vec![token(*p, c.burn_amount.unwrap_or(2))]), redeemer: red(r) }); }
         for (t, r) in &c.withdrawals { tx.adhoc.push(withdrawal(*t, red(r))); }
+        if c.native_witness {
+            tx.adhoc.push(tir::AdHocDirective { name: "native_witness".to_string(), data: HashMap::from([("script".to_string(), tir::Expression::Bytes([vec![0x82u8, 0x00, 0x58, 0x1c], vec![9u8; 28]].concat()))]) });
+        }
         tx
     }
 
@@ -132,11 +138,13 @@ mod verif_driver_redeemers {
                 for u in us { out.insert((0u8, all.iter().position(|x| x == u).unwrap() as u32), *n); }
             }
         }
-        let mut policies: Vec<u8> = c.mints.iter().chain(c.burns.iter()).map(|(p, _)| *p).collect();
-        policies.sort();
-        policies.dedup();
+        // the ledger orders the policies of the body's mint field: a policy whose mints and burns cancel out is not in it
+        let mut net: BTreeMap<u8, i128> = BTreeMap::new();
+        for (p, _) in &c.mints { *net.entry(*p).or_default() += 3; }
+        for (p, _) in &c.burns { *net.entry(*p).or_default() -= c.burn_amount.unwrap_or(2); }
+        let policies: Vec<u8> = net.iter().filter(|(_, v)| **v != 0).map(|(p, _)| *p).collect();
         for (p, r) in c.mints.iter().chain(c.burns.iter()) {
-            if let Some(n) = r { out.insert((1u8, policies.iter().position(|x| x == p).unwrap() as u32), *n); }
+            if let (Some(n), Some(ix)) = (r, policies.iter().position(|x| x == p)) { out.insert((1u8, ix as u32), *n); }
         }
         let mut accounts: Vec<u8> = c.withdrawals.iter().map(|(t, _)| *t).collect();
         accounts.sort();
@@ -191,46 +199,54 @@ mod verif_driver_redeemers {
                 for ixs in 0..(1u32 << k) {
                     for mask in 1..(1u32 << k) {
                         let inputs = (0..k).map(|b| (vec![(perm[b], (ixs >> b) & 1)], if mask >> b & 1 == 1 { Some(100 + b as i128) } else { None })).collect();
-                        check(&Case { inputs, mints: vec![], burns: vec![], withdrawals: vec![] }, "spend-index", &mut n);
+                        check(&Case { inputs, mints: vec![], burns: vec![], withdrawals: vec![], ..Default::default() }, "spend-index", &mut n);
                     }
                 }
             }
         }
         // same txid, different output indices
         for (a, b) in [(0u32, 1u32), (1, 0), (2, 10), (10, 2), (255, 256), (256, 255)] {
-            check(&Case { inputs: vec![(vec![(0x55, a)], Some(100)), (vec![(0x55, b)], Some(101))], mints: vec![], burns: vec![], withdrawals: vec![] }, "spend-index", &mut n);
+            check(&Case { inputs: vec![(vec![(0x55, a)], Some(100)), (vec![(0x55, b)], Some(101))], mints: vec![], burns: vec![], withdrawals: vec![], ..Default::default() }, "spend-index", &mut n);
         }
         // ---- multi-UTxO script inputs: every UTxO of the block needs the block's redeemer ----
         for perm in permutations(&[0x11, 0x22, 0x33]) {
-            check(&Case { inputs: vec![(vec![(perm[0], 0), (perm[1], 0)], Some(100))], mints: vec![], burns: vec![], withdrawals: vec![] }, "multi-utxo-input-only-first", &mut n);
-            check(&Case { inputs: vec![(vec![(perm[0], 0), (perm[1], 1)], Some(100)), (vec![(perm[2], 0)], Some(101))], mints: vec![], burns: vec![], withdrawals: vec![] }, "multi-utxo-input-only-first", &mut n);
+            check(&Case { inputs: vec![(vec![(perm[0], 0), (perm[1], 0)], Some(100))], mints: vec![], burns: vec![], withdrawals: vec![], ..Default::default() }, "multi-utxo-input-only-first", &mut n);
+            check(&Case { inputs: vec![(vec![(perm[0], 0), (perm[1], 1)], Some(100)), (vec![(perm[2], 0)], Some(101))], mints: vec![], burns: vec![], withdrawals: vec![], ..Default::default() }, "multi-utxo-input-only-first", &mut n);
         }
         // ---- mint / burn redeemers over two policies, both orders ----
         let one = vec![(vec![(0x11u8, 0u32)], None)];
         for (p, q) in [(0xaau8, 0xbbu8), (0xbb, 0xaa)] {
             for r1 in [None, Some(200)] { for r2 in [None, Some(201)] {
-                check(&Case { inputs: one.clone(), mints: vec![(p, r1), (q, r2)], burns: vec![], withdrawals: vec![] }, "mint-index", &mut n);
-                check(&Case { inputs: one.clone(), mints: vec![(p, r1)], burns: vec![(q, r2)], withdrawals: vec![] }, "mint-index", &mut n);
+                check(&Case { inputs: one.clone(), mints: vec![(p, r1), (q, r2)], burns: vec![], withdrawals: vec![], ..Default::default() }, "mint-index", &mut n);
+                check(&Case { inputs: one.clone(), mints: vec![(p, r1)], burns: vec![(q, r2)], withdrawals: vec![], ..Default::default() }, "mint-index", &mut n);
             } }
-            check(&Case { inputs: one.clone(), mints: vec![(p, Some(200))], burns: vec![], withdrawals: vec![] }, "mint-index", &mut n);
+            check(&Case { inputs: one.clone(), mints: vec![(p, Some(200))], burns: vec![], withdrawals: vec![], ..Default::default() }, "mint-index", &mut n);
             // mint and burn under one policy: the policy runs once, one of the two blocks carries the redeemer
-            check(&Case { inputs: one.clone(), mints: vec![(p, Some(200))], burns: vec![(p, None)], withdrawals: vec![] }, "mint-index", &mut n);
-            check(&Case { inputs: one.clone(), mints: vec![(q, None), (p, Some(200))], burns: vec![], withdrawals: vec![] }, "mint-index", &mut n);
+            check(&Case { inputs: one.clone(), mints: vec![(p, Some(200))], burns: vec![(p, None)], withdrawals: vec![], ..Default::default() }, "mint-index", &mut n);
+            check(&Case { inputs: one.clone(), mints: vec![(q, None), (p, Some(200))], burns: vec![], withdrawals: vec![], ..Default::default() }, "mint-index", &mut n);
             // the same redeemer written on both blocks of one policy: still exactly one entry
-            check(&Case { inputs: one.clone(), mints: vec![(p, Some(200))], burns: vec![(p, Some(200))], withdrawals: vec![] }, "mint-index", &mut n);
-            check(&Case { inputs: one.clone(), mints: vec![(p, Some(200)), (q, Some(201))], burns: vec![(q, Some(201))], withdrawals: vec![] }, "mint-index", &mut n);
+            check(&Case { inputs: one.clone(), mints: vec![(p, Some(200))], burns: vec![(p, Some(200))], withdrawals: vec![], ..Default::default() }, "mint-index", &mut n);
+            check(&Case { inputs: one.clone(), mints: vec![(p, Some(200)), (q, Some(201))], burns: vec![(q, Some(201))], withdrawals: vec![], ..Default::default() }, "mint-index", &mut n);
         }
+        // a policy whose mint and burn cancel out is not in the body: the policies after it move up
+        for (p, q) in [(0xaau8, 0xbbu8), (0xbb, 0xaa)] {
+            check(&Case { inputs: one.clone(), mints: vec![(p, None), (q, Some(200))], burns: vec![(p, None)], burn_amount: Some(3), ..Default::default() }, "mint-index-after-cancelled-policy", &mut n);
+            check(&Case { inputs: one.clone(), mints: vec![(q, Some(200)), (p, None)], burns: vec![(p, None)], burn_amount: Some(3), ..Default::default() }, "mint-index-after-cancelled-policy", &mut n);
+        }
+        // redeemers are compiled whatever other witnesses the template carries (the script may come from a reference input)
+        check(&Case { inputs: vec![(vec![(0x11, 0)], Some(100))], native_witness: true, ..Default::default() }, "redeemer-next-to-native-witness", &mut n);
+        check(&Case { inputs: one.clone(), mints: vec![(0xaa, Some(200))], native_witness: true, ..Default::default() }, "redeemer-next-to-native-witness", &mut n);
         // ---- withdrawal redeemers ----
         for (a, b) in [(0x01u8, 0x02u8), (0x02, 0x01)] {
-            check(&Case { inputs: one.clone(), mints: vec![], burns: vec![], withdrawals: vec![(a, Some(300))] }, "reward-index", &mut n);
-            check(&Case { inputs: one.clone(), mints: vec![], burns: vec![], withdrawals: vec![(a, Some(300)), (b, Some(301))] }, "reward-index", &mut n);
-            check(&Case { inputs: one.clone(), mints: vec![], burns: vec![], withdrawals: vec![(a, None), (b, Some(301))] }, "reward-index", &mut n);
+            check(&Case { inputs: one.clone(), mints: vec![], burns: vec![], withdrawals: vec![(a, Some(300))], ..Default::default() }, "reward-index", &mut n);
+            check(&Case { inputs: one.clone(), mints: vec![], burns: vec![], withdrawals: vec![(a, Some(300)), (b, Some(301))], ..Default::default() }, "reward-index", &mut n);
+            check(&Case { inputs: one.clone(), mints: vec![], burns: vec![], withdrawals: vec![(a, None), (b, Some(301))], ..Default::default() }, "reward-index", &mut n);
         }
         // ---- all purposes together ----
-        check(&Case { inputs: vec![(vec![(0x33, 1)], Some(100)), (vec![(0x11, 0)], Some(101))], mints: vec![(0xbb, Some(200))], burns: vec![(0xaa, Some(201))], withdrawals: vec![(0x02, Some(300)), (0x01, Some(301))] }, "combined", &mut n);
+        check(&Case { inputs: vec![(vec![(0x33, 1)], Some(100)), (vec![(0x11, 0)], Some(101))], mints: vec![(0xbb, Some(200))], burns: vec![(0xaa, Some(201))], withdrawals: vec![(0x02, Some(300)), (0x01, Some(301))], ..Default::default() }, "combined", &mut n);
         // ---- C14: a constant IR sent by a client may hold an input with a redeemer and NO utxo: an error, never a panic ----
         for r in [Some(100), None] {
-            let c = Case { inputs: vec![(vec![], r)], mints: vec![], burns: vec![], withdrawals: vec![] };
+            let c = Case { inputs: vec![(vec![], r)], mints: vec![], burns: vec![], withdrawals: vec![], ..Default::default() };
             let tx = build(&c);
             n += 1;
             let prev = std::panic::take_hook();
